@@ -16,8 +16,24 @@ def mkflow(ix, site, local_types=None, which=0, tab=None, env=None,
     fl.conv.erase_broadcast = erase_broadcast
     fl.conv.forward_attrs = forward_attrs
     fl.canon = canon
+    fl.ix = ix
+    fl.known = known_functions()
     fl.run()
     return fl
+
+
+_KNOWN = []
+
+
+def known_functions():
+    """sites of the functions of the reviewed tree (rules/known_functions.json, written by tools/gen_known.py);
+    a function that is not listed is new and is analysed at its call sites (sa/flow.py)"""
+    if not _KNOWN:
+        import json
+        import os
+        p = os.path.join(os.path.dirname(os.path.dirname(os.path.abspath(__file__))), 'rules', 'known_functions.json')
+        _KNOWN.append(frozenset(json.load(open(p))) if os.path.exists(p) else None)
+    return _KNOWN[0]
 
 
 def spec(fl, text, bind=None):
